@@ -9,7 +9,7 @@ import json, os, shutil, subprocess, sys, time
 prop, wt, n = sys.argv[1], sys.argv[2], sys.argv[3]
 extra = sys.argv[4:]
 VERIF = "/verif"
-tag = "r2-" if "mut2" in wt else ("r3-" if "mut3" in wt else ("r4-" if "mut4" in wt else ("r5-" if "mut5" in wt else ("r6-" if "mut6" in wt else ""))))
+tag = "r2-" if "mut2" in wt else ("r3-" if "mut3" in wt else ("r4-" if "mut4" in wt else ("r5-" if "mut5" in wt else ("r6-" if "mut6" in wt else ("r7-" if "mut7" in wt else "")))))
 dst = os.path.join(VERIF, "seeded", "%s-%s%s" % (prop, tag, n))
 patch = os.path.join(wt, "mutation-%s.patch" % n)
 demo = os.path.join(wt, "demo-%s" % n)
